@@ -11,6 +11,10 @@ import Driver.C12
 import Driver.C14
 import Driver.C16
 import Driver.C17
+import Driver.C06
+import Driver.C08
+import Driver.C11
+import Driver.C18
 
 open Driver
 
@@ -26,7 +30,11 @@ def handlers : List (List String → Option String) := [
   Driver.C12.handle,
   Driver.C14.handle,
   Driver.C16.handle,
-  Driver.C17.handle
+  Driver.C17.handle,
+  Driver.C06.handle,
+  Driver.C08.handle,
+  Driver.C11.handle,
+  Driver.C18.handle
 ]
 
 def dispatch (toks : List String) : String :=
